@@ -37,6 +37,15 @@ Theorem C11_threads_elsewhere :
 Proof. exact C11_threads_elsewhere. Qed.
 Print Assumptions C11_threads_elsewhere.
 
+(* ... and stay outside them for good: invariant over every admitted history *)
+Theorem C11_threads_outside_homes :
+  forall tr s p,
+    run init tr = Some s -> started (p_st (pay s p)) = true -> p_flav (pay s p) = Thr -> background s p ->
+    home_tid (r_home_aio (run_ s (p_owner (pay s p)))) (p_tid (pay s p)) = false
+    /\ home_tid (r_home_trio (run_ s (p_owner (pay s p)))) (p_tid (pay s p)) = false.
+Proof. exact C11_threads_outside_homes. Qed.
+Print Assumptions C11_threads_outside_homes.
+
 Theorem C11_home_not_a_payload_thread :
   forall s p f tid loop other ok s',
     step s (Start p f tid loop other ok) = Some s' -> coroutine f = true ->
